@@ -401,12 +401,68 @@ pub struct TextRef<'a> {
     pub chars: &'a [char],
     pub classes: &'a [CharClass],
 }
-// @item rust/core/src/tokenization/text.rs :: struct Text
-pub struct TextOwn {
-    pub words: Vec<WordShape>,
-    pub source: Vec<char>,
-    pub chars: Vec<char>,
-    pub classes: Vec<CharClass>,
+// @item rust/core/src/search/score.rs :: const SCORES_SIZE
+pub const SCORES_SIZE: usize = 9;
+// @item rust/core/src/search/score.rs :: struct Scores
+pub struct Scores(pub [isize; SCORES_SIZE]);
+// @item rust/core/src/search/hit.rs :: struct Hit
+pub struct Hit<'a> {
+    pub id: usize,
+    pub title: TextRef<'a>,
+    pub rating: usize,
+    pub rmatches: Vec<WordMatch>,
+    pub qmatches: Vec<WordMatch>,
+    pub scores: Scores,
+}
+// @item rust/core/src/search/highlight.rs :: fn highlight
+pub fn highlight(hit: &Hit, dividers: (&[char], &[char])) -> (ret: String)
+{
+    let (div_left, div_right) = dividers;
+    let Hit { title: TextRef { words, source, .. }, rmatches, .. } = hit;
+    let mut highlighted = {
+        let chars_src = source.len();
+        let chars_hl = (div_left.len() + div_right.len() + 1) * words.len();
+        String::with_capacity((chars_src + chars_hl) * 4)
+    };
+    let mut char_offset = 0;
+    let __end0 = words.len();
+    for word_offset in 0..__end0
+    {
+        let word = &words[word_offset];
+        let mut __found1: Option<&WordMatch> = None;
+        let mut __i1 = 0;
+        while __i1 < rmatches.len()
+        {
+            let m = &rmatches[__i1];
+            if m.offset == word_offset {
+                __found1 = Some(m);
+                break;
+            }
+            __i1 += 1;
+        }
+        match __found1 {
+            Some(rmatch) => {
+                let match_start = word.slice.0 + rmatch.subslice.0;
+                let match_end = word.slice.0 + rmatch.subslice.1;
+                highlighted.extend(&source[char_offset..match_start]);
+                highlighted.extend(div_left);
+                highlighted.extend(&source[match_start..match_end]);
+                highlighted.extend(div_right);
+                highlighted.extend(&source[match_end..word.slice.1]);
+            }
+            None => {
+                highlighted.extend(&source[char_offset..word.slice.1]);
+            }
+        }
+        char_offset = word.slice.1;
+    }
+    highlighted.extend(&source[char_offset..]);
+    let __clo0 = |ch: char| -> (ret: bool)
+    {
+        ch != '\0'
+    };
+    highlighted.retain(__clo0);
+    highlighted
 }
 // @item rust/core/src/tokenization/word_shape.rs :: impl Word for WordShape
 impl WordShape {
@@ -439,200 +495,139 @@ impl WordShape {
         right - left
     }
 }
-// @item rust/core/src/tokenization/text.rs :: impl TextOwn::{to_ref}
-impl TextOwn {
-    pub fn to_ref<'a>(&'a self) -> (ret: TextRef<'a>)
+// @item rust/core/src/search/score.rs :: fn score_chars_up
+pub fn score_chars_up(hit: &Hit) -> (ret: isize)
+{
+    let mut __acc0: isize = 0;
+    let __end0 = hit.rmatches.len();
+    for __i0 in 0..__end0
     {
-        TextRef { words: &self.words, source: &self.source, chars: &self.chars, classes: &self.classes }
+        let m = &hit.rmatches[__i0];
+        __acc0 += m.match_len() as isize - 2 * (f64_ceil_as_isize(m.typos));
     }
+    __acc0
 }
-// @item rust/core/src/utils/trigrams.rs :: struct TrigramIter
-pub struct TrigramIter<'a> {
-    pub word: &'a [char],
-    pub size: usize,
-}
-// @item rust/core/src/utils/trigrams.rs :: impl TrigramIter::{new}
-impl<'a> TrigramIter<'a> {
-    pub fn new(word: &'a [char]) -> (ret: Self)
+// @item rust/core/src/search/score.rs :: fn score_words_up
+pub fn score_words_up(hit: &Hit) -> (ret: isize)
+{
+    let mut __acc0: usize = 0;
+    let __end0 = hit.rmatches.len();
+    for __i0 in 0..__end0
     {
-        Self { word, size: 1 }
-    }
-}
-// @item rust/core/src/utils/trigrams.rs :: impl Iterator for TrigramIter::{next}
-impl<'a> TrigramIter<'a> {
-    fn next(&mut self) -> (ret: Option<[char; 3]>)
-    {
-        if self.word.len() < self.size {
-            return None;
-        }
-        let mut gram = ['\0', '\0', '\0'];
-        gram[..self.size].copy_from_slice(&self.word[..self.size]);
-        if self.size < 3 {
-            self.size += 1;
-        } else {
-            self.word = &self.word[1..];
-        }
-        Some(gram)
-    }
-}
-// @item rust/core/src/store/record.rs :: struct Record
-pub struct Record {
-    pub ix: usize,
-    pub id: usize,
-    pub title: TextOwn,
-    pub rating: usize,
-}
-// @item rust/core/src/store/trigram_index.rs :: struct TrigramIndex
-pub struct TrigramIndex {
-    pub len: usize,
-    pub dict: HashMap<[char; 3], Vec<usize>>,
-    pub counts: Vec<usize>,
-}
-// @item rust/core/src/store/trigram_index.rs :: impl TrigramIndex::{new,add,prepare,collect_grams}
-impl TrigramIndex {
-    pub fn new() -> (ret: Self)
-    {
-        Self { len: 0, dict: HashMap::new(), counts: Vec::new() }
-    }
-    pub fn add(&mut self, record: &Record)
-    {
-        let Self { dict, len, .. } = self;
-        let Record { ix, title, .. } = record;
-        let grams = Self::collect_grams(&title.to_ref());
-        *len += 1;
-        let __end0 = grams.len();
-        for __i0 in 0..__end0
-        {
-            let gram = grams[__i0];
-            if dict.contains_key(&gram) {
-                let ixs = dict.get_mut(&gram).unwrap();
-                {
-                    vassert(ixs.len() == 0 || ixs.last().unwrap() < ix);
-                    ixs.push(*ix);
-                }
-            } else {
-                dict.insert(gram, vec![*ix]);
-            }
+        let m = &hit.rmatches[__i0];
+        if !m.func {
+            __acc0 += 1;
         }
     }
-    pub fn prepare(&mut self, query: &TextRef, size: usize) -> (ret: Vec<usize>)
+    __acc0 as isize
+}
+// @item rust/core/src/search/score.rs :: fn score_tails_down
+pub fn score_tails_down(hit: &Hit) -> (ret: isize)
+{
+    let mut __acc0: usize = 0;
+    let __end0 = hit.rmatches.len();
+    for __i0 in 0..__end0
     {
-        let Self { counts, dict, .. } = self;
-        if query.words.len() == 0 {
-            return Vec::new();
+        let m = &hit.rmatches[__i0];
+        __acc0 += m.word_len() - m.match_len();
+    }
+    let tails = __acc0;
+    -(tails as isize)
+}
+// @item rust/core/src/search/score.rs :: fn score_trans_down
+pub fn score_trans_down(hit: &Hit) -> (ret: isize)
+{
+    if hit.rmatches.is_empty() {
+        return 0;
+    }
+    let mut count = 0;
+    let prevs = &hit.rmatches[..hit.rmatches.len() - 1];
+    let nexts = &hit.rmatches[1..];
+    let __end0 = vmin(prevs.len(), nexts.len());
+    for __i0 in 0..__end0
+    {
+        let prev = &prevs[__i0];
+        let next = &nexts[__i0];
+        if prev.offset + 1 > next.offset {
+            count += prev.offset + 1 - next.offset;
         }
-        counts.clear();
-        counts.resize(self.len, 0);
-        let grams = Self::collect_grams(&query);
-        let __end0 = grams.len();
-        for __i0 in 0..__end0
-        {
-            let gram = &grams[__i0];
-            if let Some(ixs) = dict.get(gram) {
-                let __end1 = ixs.len();
-                for __i1 in 0..__end1
-                {
-                    let ix = ixs[__i1];
-                    unsafe {
-                        *counts.get_unchecked_mut(ix) += 1;
-                    }
+        if prev.offset + 1 < next.offset {
+            count += next.offset - prev.offset - 1;
+        }
+    }
+    -(count as isize)
+}
+// @item rust/core/src/search/score.rs :: fn score_fin_up
+pub fn score_fin_up(hit: &Hit) -> (ret: isize)
+{
+    if let Some(m) = hit.rmatches.last() {
+        bool_as_isize(m.fin)
+    } else {
+        1
+    }
+}
+// @item rust/core/src/search/score.rs :: fn score_offset_down
+pub fn score_offset_down(hit: &Hit) -> (ret: isize)
+{
+    let mut __min0: Option<usize> = None;
+    let __end0 = hit.rmatches.len();
+    for __i0 in 0..__end0
+    {
+        let m = &hit.rmatches[__i0];
+        let __v = m.offset;
+        __min0 = match __min0 {
+            Some(__c) => {
+                if __v < __c {
+                    Some(__v)
+                } else {
+                    Some(__c)
                 }
             }
-        }
-        prepare_tail(counts, size)
+            None => Some(__v),
+        };
     }
-    fn collect_grams(text: &TextRef) -> (ret: Vec<[char; 3]>)
-    {
-        let mut __acc0: usize = 0;
-        let __end0 = text.words.len();
-        for __i0 in 0..__end0
-        {
-            let w = &text.words[__i0];
-            __acc0 += w.len();
-        }
-        let cap = __acc0;
-        let mut grams = Vec::with_capacity(cap);
-        let __end1 = text.words.len();
-        for __i1 in 0..__end1
-        {
-            let word = &text.words[__i1];
-            let chars = &text.chars[word.slice.0..word.slice.1];
-            let mut __it2 = TrigramIter::new(chars);
-            loop
-            {
-                match __it2.next() {
-                    Some(gram) => {
-                        grams.push(gram);
-                    }
-                    None => {
-                        break;
-                    }
-                }
-            }
-        }
-        grams.sort_unstable();
-        grams.dedup();
-        grams
-    }
+    let __acc0 = match __min0 {
+        Some(__c) => __c,
+        None => 0,
+    };
+    let offset = __acc0;
+    -(offset as isize)
 }
-// @item rust/core/src/store/mod.rs :: static DEFAULT_LIMIT
-pub const DEFAULT_LIMIT: usize = 10;
-// @item rust/core/src/store/store.rs :: struct Store
-pub struct Store {
-    pub next_ix: usize,
-    pub records: Vec<Record>,
-    pub limit: usize,
-    pub lang: Lang,
-    pub dividers: (Vec<char>, Vec<char>),
-    pub index: TrigramIndex,
-    pub top_ixs: Option<(usize, Vec<usize>)>,
+// @item rust/core/src/search/score.rs :: fn score_rating_up
+pub fn score_rating_up(hit: &Hit) -> (ret: isize)
+{
+    hit.rating as isize
 }
-// @item rust/core/src/store/store.rs :: impl Store
-impl Store {
-    pub fn new() -> (ret: Self)
-    {
-        Self { next_ix: 0, records: Vec::new(), limit: DEFAULT_LIMIT, lang: Lang::new(), dividers: (vec!['['], vec![']']), index: TrigramIndex::new(), top_ixs: None }
-    }
-    pub fn add(&mut self, mut record: Record)
-    {
-        let Self { next_ix, index, records, top_ixs, .. } = self;
-        vassert(*next_ix == records.len());
-        record.ix = *next_ix;
-        index.add(&record);
-        records.push(record);
-        *next_ix += 1;
-        *top_ixs = None;
-    }
-    pub fn clear(&mut self)
-    {
-        self.records.clear();
-        self.next_ix = 0;
-        self.index = TrigramIndex::new();
-        self.top_ixs = None;
-    }
-    pub fn highlight_with(&mut self, dividers: (&str, &str))
-    {
-        let left: Vec<char> = to_vec(dividers.0);
-        let right: Vec<char> = to_vec(dividers.1);
-        self.dividers = (left, right);
-    }
-    pub fn dividers<'a>(&'a self) -> (ret: (&'a [char], &'a [char]))
-    {
-        (&self.dividers.0, &self.dividers.1)
-    }
+// @item rust/core/src/search/score.rs :: fn score_word_len_down
+pub fn score_word_len_down(hit: &Hit) -> (ret: isize)
+{
+    -(hit.title.words.len() as isize)
 }
-// @item rust/core/src/search/mod.rs :: impl Store::{top_ixs}
-impl Store {
-    fn top_ixs(&mut self) -> (ret: Vec<usize>)
+// @item rust/core/src/search/score.rs :: fn score_char_len_down
+pub fn score_char_len_down(hit: &Hit) -> (ret: isize)
+{
+    let mut __acc0: usize = 0;
+    let __end0 = hit.title.words.len();
+    for __i0 in 0..__end0
     {
-        let top_ixs = &mut self.top_ixs;
-        if let Some((limit, ixs)) = top_ixs {
-            if *limit == self.limit {
-                return ixs.clone();
-            }
-        }
-        let ixs = top_ixs_tail(&self.records, self.limit);
-        *top_ixs = Some((self.limit, ixs.clone()));
-        ixs
+        let w = &hit.title.words[__i0];
+        __acc0 += w.len();
     }
+    -(__acc0 as isize)
+}
+// @item rust/core/src/search/score.rs :: fn score
+pub fn score(query: &TextRef, hit: &mut Hit)
+{
+    let (rmatches, qmatches) = text_match(&hit.title, &query);
+    hit.rmatches = rmatches;
+    hit.qmatches = qmatches;
+    hit.scores.0[0] = score_chars_up(hit);
+    hit.scores.0[1] = score_words_up(hit);
+    hit.scores.0[2] = score_tails_down(hit);
+    hit.scores.0[3] = score_trans_down(hit);
+    hit.scores.0[4] = score_fin_up(hit);
+    hit.scores.0[5] = score_offset_down(hit);
+    hit.scores.0[6] = score_rating_up(hit);
+    hit.scores.0[7] = score_word_len_down(hit);
+    hit.scores.0[8] = score_char_len_down(hit);
 }
